@@ -138,9 +138,10 @@ def generate(seed, prop):
         a = rng.sample(small_idx, rng.randint(1, len(small_idx)))
         b = [rng.choice(big_idx)] + rng.sample(small_idx, rng.randint(0, len(small_idx)))
         pos = rng.randint(0, len(ops))
-        ops[pos:pos] = [{"op": "process", "recs": a, "s": k, "own": True},
-                        {"op": "process", "recs": b, "s": k, "own": True},
-                        {"op": "repeat", "which": 0}]
+        middle = {"op": "process", "recs": b, "s": k, "own": True}
+        if rng.random() < 0.35:
+            middle = {"op": "process_bad", "recs": b[::-1], "s": k, "kind": "nan_last"}    # the long call fails part-way
+        ops[pos:pos] = [{"op": "process", "recs": a, "s": k, "own": True}, middle, {"op": "repeat", "which": 0}]
     if not any(o["op"] == "process" for o in ops):
         ops.insert(0, draw_op(rng, "process", n_rec, n_set, own))
     return {"machine": "batch", "property": prop, "run_seed": int(seed),
@@ -525,7 +526,8 @@ def apply_op(ctx, st, op, prop):
             if own:
                 restore = (last, float(last.vt.amplitude[-1]))
             last.vt.amplitude[-1] = np.nan
-            settings = make_settings(H, spec)
+            # the caller's own settings object: a call that fails part-way must not leave anything in it
+            settings = st.sets[op["s"]] if own else make_settings(H, spec)
         elif op["kind"] == "bad_window_type":
             settings = make_settings(H, spec)
             settings.window_type_and_width = ["hann", 0.1]
